@@ -27,6 +27,8 @@ class ExprMixin:
             goal = sv.Implies(sv.And(*path.guards), goal)
         g = sv.simp(goal)
         if sv.is_true(g):
+            if not kind.startswith("safe:"):
+                self.emit(path, kind, z3.BoolVal(True), node, note)  # discharged by simplification, still counted
             return
         self.emit(path, kind, goal, node, note)
         if assume:
